@@ -85,22 +85,23 @@ def gen_string_history(rng, nops):
     return ops, defs
 
 
-def history_source(defs):
+def history_source(defs, attr="@char"):
+    """the history over a string (attr @char) or over an array of numbers with the same cells (attr @item)"""
     parts = []
     for i, d in enumerate(defs):
         if d[0] == "lit":
-            e = X.src(X.string(d[1]))
+            e = X.src(X.string(d[1])) if attr == "@char" else X.src(X.arr([N(ord(c)) for c in d[1]]))
         elif d[0] == "with":
-            e = "(v%d with (@: %s, @char: %d))" % (d[1], X.num_src(d[2]), d[3])
+            e = "(v%d with (@: %s, %s: %d))" % (d[1], X.num_src(d[2]), attr, d[3])
         elif d[0] == "without":
-            e = "(v%d without (@: %s, @char: %d))" % (d[1], X.num_src(d[2]), d[3])
+            e = "(v%d without (@: %s, %s: %d))" % (d[1], X.num_src(d[2]), attr, d[3])
         else:
             e = "(%s \\ v%d)" % (X.num_src(d[2]), d[1])
         parts.append("let v%d = %s;" % (i, e))
     return " ".join(parts) + " [" + ", ".join("v%d" % i for i in range(len(defs))) + "]"
 
 
-def decode_values(d, n):
+def decode_values(d, n, attr="@char"):
     """dump of [v0..vn-1] -> list of (off, cells) or None"""
     items = {}
     for m in d.get("s", []):
@@ -114,9 +115,9 @@ def decode_values(d, n):
         cs = {}
         for m in v["s"]:
             t = dict(m.get("t", []))
-            if set(t) != {"@", "@char"}:
+            if set(t) != {"@", attr} or "n" not in t[attr]:
                 return None
-            cs[int(t["@"]["n"])] = int(t["@char"]["n"])
+            cs[int(t["@"]["n"])] = int(t[attr]["n"])
         if not cs:
             out.append((0, []))
         else:
@@ -227,7 +228,7 @@ def main(tier, seed, replay=None):
     if replay:
         rp = json.load(open(replay))
         if rp["case"].get("ops"):
-            hists = [(rp["case"]["ops"], None, rp["case"]["src"])]
+            hists = [(rp["case"]["ops"], None, rp["case"]["src"], rp["case"].get("attr", "@char"))]
         nh = 0
     corpus = [(["(OLit [97; 98; 99] 0)", "(OWith 0 (3) 100)", "(OWith 0 (3) 101)"], [("lit", "abc"), ("with", 0, 3, 100), ("with", 0, 3, 101)]),
               (["(OLit [97; 98; 99] 0)", "(OWithout 0 (2) 99)", "(OWith 1 (2) 120)"], [("lit", "abc"), ("without", 0, 2, 99), ("with", 1, 2, 120)]),
@@ -235,21 +236,24 @@ def main(tier, seed, replay=None):
                [("lit", "ab"), ("with", 0, 2, 99), ("with", 1, 3, 100), ("with", 1, 3, 101), ("offset", 1, 2), ("with", 4, 5, 102)])]
     if not replay:
         for ops, defs in corpus:
-            hists.append((ops, defs, history_source(defs)))
+            hists.append((ops, defs, history_source(defs), "@char"))
+            hists.append((ops, defs, history_source(defs, "@item"), "@item"))
     for _ in range(nh):
         ops, defs = gen_string_history(rng, rng.randrange(3, 14))
-        hists.append((ops, defs, history_source(defs)))
+        # the same slice + offset + holes shape backs strings and arrays (rel/value_set_str.go, rel/value_set_array.go)
+        attr = "@char" if rng.random() < 0.6 else "@item"
+        hists.append((ops, defs, history_source(defs, attr), attr))
     outs, _, _ = run_harness(vh, "eval", [{"id": i, "src": h[2]} for i, h in enumerate(hists)])
     cases = []
-    for i, (ops, defs, src) in enumerate(hists):
+    for i, (ops, defs, src, attr) in enumerate(hists):
         o = outs.get(i) or {"st": "missing"}
         n = len(ops)
-        vals = decode_values(o["val"], n) if o.get("st") == "ok" else None
+        vals = decode_values(o["val"], n, attr) if o.get("st") == "ok" else None
         if vals is None:
-            run.classify_failure(None, {"case": {"src": src, "ops": ops}, "observed": o,
+            run.classify_failure(None, {"case": {"src": src, "ops": ops, "attr": attr}, "observed": o,
                                         "oracle": "a history of with/without/offset derivations over a string does not evaluate to a list of strings"})
             continue
-        cases.append({"id": i, "ops": ops, "obs": vals, "src": src})
+        cases.append({"id": i, "ops": ops, "obs": vals, "src": src, "attr": attr})
     chunks = [cases[i:i + 300] for i in range(0, len(cases), 300)]
 
     def do(ic):
@@ -269,7 +273,7 @@ def main(tier, seed, replay=None):
                 continue
             for cid, code in rep:
                 c = byid[cid]
-                run.classify_failure(None, {"case": {"src": c["src"], "ops": c["ops"]}, "observed": c["obs"],
+                run.classify_failure(None, {"case": {"src": c["src"], "ops": c["ops"], "attr": c["attr"]}, "observed": c["obs"],
                                             "oracle": "some value of the history differs from what it was when created (heap model of Properties/C03.v: values never change)"})
     # stream 2
     gcases = []
@@ -286,11 +290,11 @@ def main(tier, seed, replay=None):
                     "the list of all values of a branching history vs each value's own definition (reference interpreter)",
                     value_codes=(1, 2, 3), corr_codes=(4, 5, 6))
     lens = {}
-    for ops, _, _ in hists:
+    for ops, _, _, _ in hists:
         lens[len(ops)] = lens.get(len(ops), 0) + 1
     ok_general = sum(1 for c in gcases if gcodes.get(c["id"]) == 0)
     run.cov.update({"evaluations": len(hists) + len(gcases), "distinct_nontrivial": len(set(h[2] for h in hists)) + ok_general,
-                    "rule": "stream 1: branching histories of 3-14 derivations (with at the end/front/a hole/far away, without at either end or inside, offsets) over one string, every operation choosing any earlier value as parent; the program `let v0 = ..; let v1 = f(v_p); .. [v0..vn]` is evaluated by syntax.EvaluateExpr and every vi compared with the heap model (Sys/Heap.v, vm_compute); stream 2: histories over strings, arrays, bytes, dicts, sets and relations (with, without, ++, offsets, >>, |) against the reference interpreter; distinct by source; non-trivial = history evaluates and agrees",
+                    "rule": "stream 1: branching histories of 3-14 derivations (with at the end/front/a hole/far away, without at either end or inside, offsets) over one string or one array of numbers (the same slice + offset + holes shape), every operation choosing any earlier value as parent; the program `let v0 = ..; let v1 = f(v_p); .. [v0..vn]` is evaluated by syntax.EvaluateExpr and every vi compared with the heap model (Sys/Heap.v, vm_compute); stream 2: histories over strings, arrays, bytes, dicts, sets and relations (with, without, ++, offsets, >>, |) against the reference interpreter; distinct by source; non-trivial = history evaluates and agrees",
                     "samples": [h[2] for h in hists[:3]] + [c["src"] for c in gcases[:3]],
                     "history_length_histogram": lens, "general_histories_agreeing": ok_general, "exhaustive": False})
     run.assumptions = ["github.com/arr-ai/frozen values are persistent (immutable)", "Go append/reslice semantics as modelled in Sys/Heap.v"]
